@@ -174,7 +174,15 @@ def impl_agg_op(line):
             assert fc.is_coding is False
             ts = sorted(fc.feature_types)
             return f"ok {fc.start} {fc.end} {p} " + " ".join([str(len(ts))] + [enc(x) for x in ts])
-        if op == "acoll":
+        if op in ("acoll", "acollp"):
+            parent = None
+            if op == "acollp":
+                ps, pe = t.next(), t.next()
+                if ps != "-":
+                    parent = L["Parent"](id="chr", sequence_type=L["SequenceType"].CHROMOSOME,
+                                         location=L["SingleInterval"](int(ps), int(pe), L["Strand"].PLUS))
+                else:
+                    parent = L["Parent"](id="chr", sequence_type=L["SequenceType"].CHROMOSOME)
             bs, be = t.next(), t.next()
             gb, fb = t.blocks(), t.blocks()
             # equal-content members get distinct guids through distinct ids
@@ -188,6 +196,8 @@ def impl_agg_op(line):
                 kw["start"] = int(bs)
             if be != "-":
                 kw["end"] = int(be)
+            if parent is not None:
+                kw["parent_or_seq_chunk_parent"] = parent
             ac = L["AnnotationCollection"](feature_collections=fcs, genes=genes, **kw)
             order = []
             for ch in ac.iter_children():
